@@ -65,7 +65,7 @@ class SysWorld:
                              arbiter_handle=Struct('ArbiterHandle', [TxObj(ChanObj())])))
         self.cx = ContextObj(WakerObj(1))
         self.reg = set(); self.first = None; self.expected = [0, 0, 0]; self.stops = [0, 0, 0]; self.code = None
-        self.hist = []; ex.hist = self.hist; self.out = []; self.nexit = 0
+        self.hist = []; ex.hist = self.hist; self.out = []; self.nexit = 0; self.dead = set()
     def apply(self, op, code=None):
         ex = self.ex
         if op.startswith('reg:'):
@@ -73,6 +73,10 @@ class SysWorld:
             self.hist.append(op)
         elif op.startswith('dereg:'):
             self.cmd.q.append(Enum('SystemCommand', 'DeregisterArbiter', [z3.BitVecVal(int(op[6:]), 64)])); self.hist.append(op)
+        elif op.startswith('die:'):
+            # arbiter k's loop has ended (its command receiver is gone) but it has not (yet) been deregistered
+            k = int(op[4:]); self.arb[k].rx_alive = False; self.dead.add(k); self.hist.append(op)
+        elif op.startswith('order:'): pass
         elif op.startswith('exit'):
             if ':' in op: c = z3.BitVecVal(int(op[5:]) & 0xffffffff, 32); self.hist.append(op)
             else:
@@ -84,7 +88,8 @@ class SysWorld:
                 if c.variant == 'RegisterArbiter': self.reg.add(z3.simplify(c.f[0].v).as_long())
                 elif c.variant == 'DeregisterArbiter': self.reg.discard(z3.simplify(c.f[0].v).as_long())
                 else:
-                    for k in self.reg: self.expected[k] += 1
+                    for k in self.reg:
+                        if k not in self.dead: self.expected[k] += 1      # an arbiter that has already ended cannot be told to stop; every live one must be
                     if self.first is None: self.first = c.f[0].v
             r = ex.run(self.c.SYS_POLL, [Ref(LCell(Cell(self.ctl))), Ref(LCell(Cell(self.cx)))])
             for k in range(3):
@@ -102,8 +107,8 @@ def c09_body(ctx, depth):
     def body(ex, acc):
         w = SysWorld(ctx, ex)
         for step in range(depth):
-            boundary(ex, acc, step + 1, [w.ctl, w.cmd, w.tx, sorted(w.reg), w.first, w.expected, w.stops, w.nexit])
-            ops = ['reg:%d' % k for k in range(3)] + ['dereg:%d' % k for k in range(3)] + (['exit'] if w.nexit < 2 else []) + ['poll', 'end']
+            boundary(ex, acc, step + 1, [w.ctl, w.cmd, w.tx, sorted(w.reg), sorted(w.dead), w.first, w.expected, w.stops, w.nexit])
+            ops = ['reg:%d' % k for k in range(3)] + ['dereg:%d' % k for k in range(3)] + ['die:%d' % k for k in range(3) if k not in w.dead] + (['exit'] if w.nexit < 2 else []) + ['poll', 'end']
             op = ex.pick('sys', ops)
             if op == 'end': break
             w.apply(op); acc.transitions += 1
@@ -120,13 +125,19 @@ def c09_body(ctx, depth):
                     acc.wit['c09_exit_delivered'] += 1
                     if w.nexit == 2: acc.wit['c09_two_stops'] += 1
                 if any(w.stops): acc.wit['c09_arbiter_stopped'] += 1
-        boundary(ex, acc, depth + 1, [w.ctl, w.cmd, w.tx, sorted(w.reg), w.first, w.expected, w.stops, w.nexit])
+        boundary(ex, acc, depth + 1, [w.ctl, w.cmd, w.tx, sorted(w.reg), sorted(w.dead), w.first, w.expected, w.stops, w.nexit])
         if len(acc.samples) < 3 and len(w.hist) >= 4: acc.samples.append(' '.join(w.hist))
     return body
 
 
 def c09_sym_trace(ctx, tokens):
     ex = ctx.mk(); w = SysWorld(ctx, ex); out = []
+    # a recorded iteration order (`order:<keys>`) is replayed; without one the keys are visited in ascending order
+    orders = [t[6:] for t in tokens if t.startswith('order:')]
+    ex.hash_order_choice = False
+    if orders:
+        import models as _m
+        ex.forced_orders = orders
     for t in tokens:
         w.apply(t)
         if t == 'poll': out.append(w.line())
@@ -265,8 +276,11 @@ MODELS[:0] = [(r'tokio::task::spawn_local::<', m_spawn_local), (r'(?:^|::)spawn_
 def _rand_sys(rnd):
     ops = []
     for _ in range(rnd.randint(2, 10)):
-        k = rnd.choice(['reg', 'reg', 'dereg', 'exit', 'poll', 'poll'])
+        k = rnd.choice(['reg', 'reg', 'dereg', 'die', 'exit', 'poll', 'poll'])
         if k in ('reg', 'dereg'): ops.append('%s:%d' % (k, rnd.randint(0, 2)))
+        elif k == 'die':
+            d = rnd.randint(0, 2)
+            if 'die:%d' % d not in ops: ops.append('die:%d' % d)
         elif k == 'exit': ops.append('exit:%d' % rnd.choice([0, 1, 7, -3, 255]))
         else: ops.append('poll')
     return ops + ['poll']
@@ -316,9 +330,14 @@ def run_rt(rep, pid, tier, seed):
             else: toks.append(h)
         if toks[-1] != 'poll': toks.append('poll')
         mode = 'system' if pid == 'C09' else 'arbiter'
-        nat1 = run_native([' '.join(toks)], mode)[0]
         sym1 = (c09_sym_trace if pid == 'C09' else c10_sym_trace)(ctx, toks)
-        reproduced = nat1.strip() == sym1.strip()       # the native run shows the same observable trace that violates the obligation
+        # the native HashMap has a random iteration order per instance: a counterexample that depends on the order (an
+        # `order:` entry in its history) is replayed up to 64 times and must show the engine's trace at least once
+        tries = 64 if any(t.startswith('order:') for t in toks) else 1
+        nats = run_native([' '.join(t for t in toks if not t.startswith('order:'))] * tries, mode)
+        hit = [n for n in nats if n.strip() == sym1.strip()]
+        nat1 = hit[0] if hit else nats[0]
+        reproduced = bool(hit)       # the native run shows the same observable trace that violates the obligation
         fkey = '%s: ops=[%s]' % (v['obligation'], ' '.join(h.split(':')[0] if h.startswith('exit') else h for h in v['hist']))
         path = core.write_replay(pid, fkey, {'mode': mode, 'tokens': toks, 'obligation': v['obligation'], 'native_trace': nat1, 'engine_trace': sym1})
         rep.violation(fkey, '%s -- %s; ops=%s; native trace: %s' % (v['obligation'], v['what'], toks, nat1), replay=path, reproduced=reproduced)
